@@ -24,7 +24,7 @@ TRUSTED = [
     "C10 concurrency: bodies of run()/cache_clear() are modelled as load + store under the lock; the raw sample is taken outside the lock (explicit `sample` action: lock order need not be sampling order)",
 ]
 MANIFEST = {
-    "level_text": "Machine-checked Lean 4 proof that the model of the public front ends (per-device and system-wide form, Linux perdisk filter, cache_clear of one or two names) + _WrapNumbers.run/cache_clear refines a history-defined specification for EVERY history (C10_refines, C10_front_refines: any number of wraps, devices appearing/vanishing/reappearing, empty snapshots, cache_clear anywhere, alternating nowrap, both functions and both forms interleaved), that the system-wide form is the field-wise sum of the adjusted per-device tuples (C10_total_is_sum, C10_total_field) and never decreases while no device vanishes (C10_total_monotone; proved counterexample C10_total_drops_when_device_vanishes for the unrestricted statement), with corollaries C10_monotone, C10_value_formula, C10_reappear_fresh, C10_cache_clear_forgets, C10_nowrap_false_raw, C10_names_independent, and that every interleaving of any number of threads equals the serial execution in lock-acquisition order (C10_serialisable, C10_concurrent_refines; counterexample C10_unlocked_not_serialisable). Proved counterexamples for the pre-fix front end (C10_reappear_needs_empty_feed) and for the two forms of disk_io_counters sharing one cache name on Linux (C10_forms_share_history_counterexample: known finding C10-forms-share-cache, repair in fixes/). The model is tied to the code by 12 translator facts (empty-snapshot handling, cache names per form, names cleared, wrap comparison, Linux perdisk filter, run/cache_clear/cache_info under the lock) feeding cfg_good / cfg_good_conc, and by a differential run of the real front-end functions against model and specification on generated and exhaustively enumerated histories, including 2-3 real threads whose observed schedule is replayed through the Lean lock model.",
+    "level_text": "Machine-checked Lean 4 proof that the model of the public front ends (per-device and system-wide form, Linux perdisk filter, cache_clear of one or two names) + _WrapNumbers.run/cache_clear refines a history-defined specification for EVERY history (C10_refines, C10_front_refines: any number of wraps, devices appearing/vanishing/reappearing, empty snapshots, cache_clear anywhere, alternating nowrap, both functions and both forms interleaved), that the system-wide form is the field-wise sum of the adjusted per-device tuples (C10_total_is_sum, C10_total_field) and never decreases while no device vanishes (C10_total_monotone; proved counterexample C10_total_drops_when_device_vanishes for the unrestricted statement), with corollaries C10_monotone, C10_value_formula, C10_reappear_fresh, C10_cache_clear_forgets, C10_nowrap_false_raw, C10_names_independent, and that every interleaving of any number of threads equals the serial execution in lock-acquisition order (C10_serialisable, C10_concurrent_refines; counterexample C10_unlocked_not_serialisable). Proved counterexamples for the pre-fix front end (C10_reappear_needs_empty_feed) and for the two forms of disk_io_counters sharing one cache name on Linux (C10_forms_share_history_counterexample, kept for the shared-name configuration sharedCfg: the defect was fixed in /repo by a52899b); for the repaired front end the full statement is proved (C10_present_monotone: after any history, any listings, any number of system-wide calls in between, a disk that stays listed never goes backwards between two perdisk=True calls; instantiated as C10_present_monotone_cfg through the obligation cfg_forms_good). The model is tied to the code by 12 translator facts (empty-snapshot handling, cache names per form, names cleared, wrap comparison, Linux perdisk filter, run/cache_clear/cache_info under the lock) feeding cfg_good / cfg_good_conc / cfg_forms_good, and by a differential run of the real front-end functions against model and specification on generated and exhaustively enumerated histories, including 2-3 real threads whose observed schedule is replayed through the Lean lock model.",
     "level_note": "Trusted: Lean kernel + {propext, Classical.choice, Quot.sound}; the translator; the correspondence harness; reminders/reminder_keys modelled as a total function (cache_info's value not modelled); uniform tuple width and unique device names per snapshot are hypotheses (true of every platform layer's output); the raw sample is taken outside the lock.",
     "technique": "Lean 4 refinement proof by induction over histories (invariant of _WrapNumbers) + small-step lock model with serialisability invariant + translator-fed proof obligations + differential correspondence with exhaustive short histories and replayed real-thread schedules",
     "design_ref": "DESIGN.md §5 C10",
@@ -397,7 +397,9 @@ def run_histories(ctx, impl, hists):
 
 
 def mixes_forms(hist):
-    """region of finding C10-forms-share-cache: nowrap=True calls of disk_io_counters in both forms"""
+    """region of the (fixed, a52899b) finding C10-forms-share-cache: nowrap=True calls of disk_io_counters in both
+    forms. Only used to tag disagreements while that finding is listed as *known* in known_findings.json; it is
+    listed as fixed now, so nothing is suppressed: a floor violation in this region is a plain VIOLATION."""
     forms = {bool(o.get("total")) for o in hist if o["op"] == "call" and o["name"] == "disk" and o["nowrap"]}
     return len(forms) == 2
 
@@ -653,6 +655,16 @@ def corpus_histories(w):
 
 
 def correspond(ctx, res):
+    # regression of C10-forms-share-cache through the REAL Linux platform layer (before the platform functions
+    # are replaced by scripted ones)
+    wit = {"id": FINDING_FORMS, "witness": {"calls": [[100, True], [10, True], [11, False], [12, True]]}}
+    if check_finding(ctx, wit) == "reproduces":
+        res.disagree("spec", {"real_platform_calls": wit["witness"]["calls"],
+                              "how": "fake <procfs>/diskstats with sda + sda1, all counters = value; [value, perdisk]"},
+                     "sda1 went backwards between two perdisk=True calls", None, "non-decreasing",
+                     note="a system-wide disk_io_counters() call between two perdisk=True calls dropped the wrap history of a partition that stayed listed")
+    res.case(("real-platform-forms", wit["witness"]["calls"]), nontrivial=True)
+    res.count("family:real_platform_forms")
     impl = Impl(ctx)
     try:
         res.rule = ("histories of public calls (both functions, per-device and system-wide form, nowrap True/False) "
@@ -905,6 +917,9 @@ def shrink(ctx, d):
 
 
 def replay(ctx, rp, res):
+    if rp["input"].get("real_platform_calls"):
+        return check_finding(ctx, {"id": FINDING_FORMS,
+                                   "witness": {"calls": rp["input"]["real_platform_calls"]}}) == "reproduces"
     hist = rp["input"].get("history")
     if not hist:
         return True
